@@ -6,6 +6,7 @@ import Ogorek.Reflect
 import Ogorek.Pvm
 import Ogorek.CPickle
 import Ogorek.CPickleOK
+import Ogorek.CPickleS
 import Ogorek.Generated.IsPrint
 
 /-!
@@ -303,6 +304,27 @@ partial def pyObjOfGo : GoVal → Option PyObj
   | .map kvs => (kvs.mapM fun (k, v) => do pure ((← pyObjOfGo k), (← pyObjOfGo v))).map .dict
   | _ => none
 
+/-- A Python object with identities: a str / bytes / bytearray leaf is written `c( C<hex "id">.<hex decimal id> leaf )`. -/
+partial def pyObjSOfGo : GoVal → Option PyObjS
+  | .none => some .none
+  | .bool b => some (.bool b)
+  | .int i => some (.int i)
+  | .big _ i => some (.int i)
+  | .float f => some (.float f)
+  | .call m n [leaf] =>
+    if m == sb "id" then
+      match parseDigits? n, leaf with
+      | some k, .str s => some (.str k s)
+      | some k, .bytes s => some (.bytes k s)
+      | some k, .bytearray s => some (.bytearray k s)
+      | _, _ => none
+    else none
+  | .tuple xs => (xs.mapM pyObjSOfGo).map .tuple
+  | .list xs => (xs.mapM pyObjSOfGo).map .list
+  | .dict kvs => (kvs.mapM fun (k, v) => do pure ((← pyObjSOfGo k), (← pyObjSOfGo v))).map .dict
+  | .map kvs => (kvs.mapM fun (k, v) => do pure ((← pyObjSOfGo k), (← pyObjSOfGo v))).map .dict
+  | _ => none
+
 def handle (line : String) : String :=
   match (line.splitOn " ").filter (· ≠ "") with
   | ["dec", cfg, hook, hex] =>
@@ -365,6 +387,15 @@ def handle (line : String) : String :=
     match parseCfg cfg, parseHook hook, bytesOfHex? hex with
     | some c, some h, some inp => runDecH (refCfg c) h inp
     | _, _, _ => "BADCASE"
+  | "cpks" :: framed :: proto :: toks =>      -- the pickler model with the memo read (shared leaves, low-protocol bytes)
+    match proto.toNat?, (parseValue? toks).bind pyObjSOfGo with
+    | some p, some v =>
+      match (if framed == "1" then cpDumpsFramedS p v else cpDumpsS p v) with
+      | some bs =>
+        let flag (pd : Bool) : String := if pkOKb { pyDict := pd, su := false } (erase v) then "1" else "0"
+        "OK " ++ hexOfBytes bs ++ " " ++ flag false ++ flag true
+      | none => "UNMODELLED"
+    | _, _ => "BADCASE"
   | ["pvm", hex] =>
     match bytesOfHex? hex with
     | some bs =>
